@@ -26,7 +26,7 @@ CATALOGUE_QUICK = ['y', 'b', 'n', 'q', 'i', 'u', 'x', 't', 'd', 's', 'o', 'g', '
 
 def body_unit(sig, n, le, tier):
     nm = 'C01.body.%s.%s%d' % (sig, 'le' if le else 'be', n)
-    UNITS.append(dict(name=nm, props=['C01', 'C10'], kind='B', route='plain', entry='harness', tus=BODYTUS,
+    UNITS.append(dict(name=nm, props=['C01'], kind='B', route='plain', entry='harness', tus=BODYTUS,
                       harness='harness/eq_body.c', extra_sources=[ASSERT, 'stubs/list_as_stack.c'],
                       defines=['VERIF_N=%d' % n, 'VERIF_LE=%d' % le, 'VERIF_SIG="%s"' % sig], unwind=n + 3, timeout=1800, tier=tier,
                       expect_s=30, trace_is_execution=True, replay_family='body', replay_fn='%s:%d' % (sig, le),
